@@ -52,6 +52,8 @@ def cases(ctx):
     for _ in range(n):
         cs = osuite.tagged_state(r, 1, 8 if ctx.tier == 'quick' else 13)
         yield (r.choice(osuite.ONAMES), osuite.rand_area(r), cs, 'random')
+    for area, cs in osuite.large_cases(r, 6 if ctx.tier == 'quick' else 40):
+        yield (r.choice(['fully_transparent', 'raytracing', 'fully_transparent']), area, cs, 'large')
     # exhaustive: all poses x all areas within [-2,2]^2 (quick) / [-3,3]^2 (thorough) on tagged grids <= 3x3 / 4x4, fully_transparent + raytracing
     lim = 2 if ctx.tier == 'quick' else 3
     shapes = [(2, 3), (3, 2)] if ctx.tier == 'quick' else [(2, 3), (3, 2), (3, 4), (4, 3), (1, 4)]
